@@ -74,7 +74,9 @@ func (constraint TypeConstraint) DeepCopy() TypeConstraint {
 		Args: make([]any, 0, len(constraint.Args)),
 	}
 
-	newConstraint.Args = append(newConstraint.Args, constraint.Args...)
+	for _, arg := range constraint.Args {
+		newConstraint.Args = append(newConstraint.Args, deepCopyAny(arg))
+	}
 
 	return newConstraint
 }
@@ -258,7 +260,7 @@ func (t Type) DeepCopy() Type {
 	newType := Type{
 		Kind:     t.Kind,
 		Nullable: t.Nullable,
-		Default:  t.Default,
+		Default:  deepCopyAny(t.Default),
 		Hints:    make(JenniesHints, len(t.Hints)),
 	}
 
@@ -304,7 +306,7 @@ func (t Type) DeepCopy() Type {
 	}
 
 	for k, v := range t.Hints {
-		newType.Hints[k] = v
+		newType.Hints[k] = deepCopyAny(v)
 	}
 
 	newType.PassesTrail = append(newType.PassesTrail, t.PassesTrail...)
@@ -810,7 +812,7 @@ func (t EnumValue) DeepCopy() EnumValue {
 	return EnumValue{
 		Type:  t.Type.DeepCopy(),
 		Name:  t.Name,
-		Value: t.Value,
+		Value: deepCopyAny(t.Value),
 	}
 }
 
@@ -955,7 +957,7 @@ func (t ConstantReferenceType) DeepCopy() ConstantReferenceType {
 	return ConstantReferenceType{
 		ReferredPkg:    t.ReferredPkg,
 		ReferredType:   t.ReferredType,
-		ReferenceValue: t.ReferenceValue,
+		ReferenceValue: deepCopyAny(t.ReferenceValue),
 	}
 }
 
@@ -1078,7 +1080,7 @@ func (scalarType *ScalarType) AcceptsValue(value any) bool {
 func (scalarType ScalarType) DeepCopy() ScalarType {
 	newT := ScalarType{
 		ScalarKind: scalarType.ScalarKind,
-		Value:      scalarType.Value,
+		Value:      deepCopyAny(scalarType.Value),
 	}
 
 	if len(scalarType.Constraints) != 0 {
